@@ -26,15 +26,29 @@ def plan(tier, seed):
             jobs.append(dict(kind='graph', N=4, kinds=3, via='api', hist=1, fix01=first))
         jobs.append(dict(kind='graph', N=4, kinds=4, via='source', hist=1, max_edges=4))
         jobs.append(dict(kind='graph', N=5, kinds=3, via='api', hist=1, max_edges=5))
+    # side-effect-only commands (execute() returns None), consumers that never read their list inputs,
+    # result names that differ only in letter case
+    nmax = 3
+    for extra in (dict(cls='NoneNode'), dict(cls='LazyNode'), dict(names='case')):
+        for via in ('api', 'source'):
+            jobs.append(dict(kind='graph', N=nmax, kinds=4 if tier == 'thorough' else 3, via=via, hist=2, **extra))
     jobs.append(dict(kind='memo'))
     return jobs
 
 
-def build(N, edge, via):
+CASE_NAMES = ['slope', 'Slope', 'sLope', 'SLOPE', 'slopE']
+
+
+def node_names(N, style=None):
+    return CASE_NAMES[:N] if style == 'case' else ['c%d' % i for i in range(N)]
+
+
+def build(N, edge, via, cls='Node', style=None):
     """edge[(i, j)] in KINDS keys: command i references command j that way.  -> Program"""
     import mpvnodes
     from mpilot.program import Program
-    names = ['c%d' % i for i in range(N)]
+    names = node_names(N, style)
+    NodeCls = getattr(mpvnodes, cls)
     specs = []
     for i in range(N):
         direct = [names[j] for j in range(N) if edge.get((i, j)) == 1]
@@ -51,7 +65,7 @@ def build(N, edge, via):
                 args["L"] = list(lst)
             if nested:
                 args["NL"] = [nested[:1], nested[1:]] if len(nested) > 1 else [nested]
-            p.add_command(mpvnodes.Node, names[i], args)
+            p.add_command(NodeCls, names[i], args)
         return p
     lines = []
     for i, (direct, lst, nested) in enumerate(specs):
@@ -63,13 +77,15 @@ def build(N, edge, via):
         if nested:
             groups = [nested[:1], nested[1:]] if len(nested) > 1 else [nested]
             args.append('NL = [%s]' % ', '.join('[%s]' % ', '.join(g) for g in groups))
-        lines.append('%s = Node(%s)' % (names[i], ',\n    '.join(args)))
+        lines.append('%s = %s(%s)' % (names[i], cls, ',\n    '.join(args)))
     return Program.from_source('\n'.join(lines), libraries=('mpvnodes',))
 
 
-def expected(N, edge):
-    names = ['c%d' % i for i in range(N)]
+def expected(N, edge, cls='Node', style=None):
+    names = node_names(N, style)
     memo = {}
+    if cls == 'NoneNode':
+        return [None] * N
 
     def ev(i):
         if i in memo:
@@ -79,28 +95,28 @@ def expected(N, edge):
         for j in direct[:3]:
             deps.append(('D', names[j], ev(j)))
         for j in range(N):
-            if edge.get((i, j)) == 2:
+            if edge.get((i, j)) == 2 and cls != 'LazyNode':
                 deps.append(('L', names[j], ev(j)))
         for j in range(N):
-            if edge.get((i, j)) == 3:
+            if edge.get((i, j)) == 3 and cls != 'LazyNode':
                 deps.append(('NL', names[j], ev(j)))
         memo[i] = (names[i], tuple(deps))
         return memo[i]
     return [ev(i) for i in range(N)]
 
 
-def run_concrete(N, edge, via, history):
+def run_concrete(N, edge, via, history, cls='Node', style=None):
     """-> list of (label, ok) facts from one real run of the scenario"""
     import mpvnodes
     del mpvnodes.LOG[:]
     facts = []
-    p = build(N, edge, via)
+    p = build(N, edge, via, cls, style)
     p.run()
-    names = ['c%d' % i for i in range(N)]
+    names = node_names(N, style)
     log = list(mpvnodes.LOG)
     for nm in names:
         facts.append(('%s executed exactly once by run()' % nm, log.count(nm) == 1))
-    exp = expected(N, edge)
+    exp = expected(N, edge, cls, style)
     first = [p.commands[nm]._result for nm in names]
     for i, nm in enumerate(names):
         facts.append(('%s received the finished results of its dependencies' % nm, first[i] == exp[i]))
@@ -145,16 +161,17 @@ def harness(ctx, cfg):
         if sum(1 for j in range(N) if edge.get((i, j)) == 1) > 3:
             raise symx.Abort("more than three direct references (bound)")
     history = [ctx.choice('op%d' % t, N + 1) for t in range(cfg.get('hist', 1))]
-    rec = {'kind': 'graph', 'N': N, 'edges': [[i, j, k] for (i, j), k in sorted(edge.items()) if k], 'via': cfg['via'], 'history': history}
+    rec = {'kind': 'graph', 'N': N, 'edges': [[i, j, k] for (i, j), k in sorted(edge.items()) if k], 'via': cfg['via'], 'history': history,
+           'cls': cfg.get('cls', 'Node'), 'names': cfg.get('names')}
     MPilotError = sys.modules['mpilot.exceptions'].MPilotError
     try:
-        facts, log = run_concrete(N, edge, cfg['via'], history)
+        facts, log = run_concrete(N, edge, cfg['via'], history, cfg.get('cls', 'Node'), cfg.get('names'))
     except MPilotError as e:
         return {'outcome': 'mpilot:' + type(e).__name__, 'obligations': [('acyclic program runs without error (%s)' % type(e).__name__, z3.BoolVal(False))],
                 'groups': {}, 'replay': rec, 'validated': True}
     obs = [(l, z3.BoolVal(bool(ok))) for l, ok in facts]
     import re
-    groups = {l: re.sub(r'\bc\d\b', '<cmd>', l) for l, _ in facts}
+    groups = {l: re.sub(r'\b(c\d|[sS][lL][oO][pP][eE])\b', '<cmd>', l) for l, _ in facts}
     return {'outcome': 'ok', 'obligations': obs, 'groups': groups, 'replay': rec, 'validated': True}
 
 
@@ -188,7 +205,7 @@ def confirm(rec, label):
     edge = {(i, j): k for i, j, k in rec['edges']}
     MPilotError = sys.modules['mpilot.exceptions'].MPilotError
     try:
-        facts, log = run_concrete(rec['N'], edge, rec['via'], rec['history'])
+        facts, log = run_concrete(rec['N'], edge, rec['via'], rec['history'], rec.get('cls', 'Node'), rec.get('names'))
     except MPilotError as e:
         return True, 'real run raised %s' % type(e).__name__
     bad = [l for l, ok in facts if not ok]
